@@ -410,6 +410,11 @@ def _b_transfcoll(w, ms, dt="f"):
     return TransformationCollection(_arr(ms, dt))
 
 
+def _b_transfstack(w, ts):
+    """a collection built from Transformation objects"""
+    return TransformationCollection([w.get(t) for t in ts])
+
+
 def _b_rotation(w, angle, axis=None):
     return _tr.rotation(angle, axis=w.get(axis) if axis is not None else None)
 
@@ -549,6 +554,8 @@ def encode_index(idx):
         return {"n": 0}
     if idx is Ellipsis:
         return {"e": 0}
+    if isinstance(idx, np.bool_):
+        return {"nb": bool(idx)}
     if isinstance(idx, (list, np.ndarray)):
         a = np.asarray(idx)
         return {"a": a.tolist(), "b": bool(a.dtype == bool)}
@@ -569,6 +576,8 @@ def decode_index(j):
             return np.array(j["a"], dtype=bool if j.get("b") else np.intp)
         if "f" in j:
             return np.array(j["f"], dtype=float)
+        if "nb" in j:
+            return np.bool_(j["nb"])          # a numpy boolean SCALAR (0-d mask), e.g. the result of line.contains(p)
     return j
 
 
